@@ -1,6 +1,6 @@
 (* EXTRACT-Z: c19 run_c19 *)
 (* Executable entry point of the C19 mesh-reader correspondence: token view -> outcome. *)
-From OM Require Import Base.Lists Base.Wire Maths.BinCodec Geom.MeshCount Geom.ReaderCounts.
+From OM Require Import Base.Lists Base.Wire Maths.BinCodec Geom.MeshCount Geom.ReaderCounts Geom.GeomFile Geom.GeomLex.
 Local Open Scope Z_scope.
 
 Definition getTok : dec mtok :=
@@ -26,6 +26,9 @@ Definition run_c19 (w : wire) : wire :=
   match w with
   | 1 :: w' => run_dec (do n <- getN; getMany n getTok) w' (fun ts => outMesh (read_tri ts))
   | 2 :: w' => run_dec (do n <- getN; getMany n getTok) w' (fun ts => outMesh (read_off ts))
+  | 5 :: w' => run_dec (do n <- getN; getNs n) w' (fun t => match lex_geom t with
+        | Some x => [0; zn (length (lx_paths x)); zn (length (lx_ifaces x)); zn (length (lx_domains x))] | None => [1] end)
+  | 6 :: w' => run_dec (do n <- getN; getNs n) w' (fun t => match lex_cond t with Some l => [0; zn (length l)] | None => [1] end)
   | 3 :: w' => run_dec getRstream w' (fun s => outMesh (read_bnd s))
   | 4 :: w' => run_dec (do n <- getN; getZs n) w' (fun bs => outMeshF (read_mesh bs))
   | _ => [-1]
